@@ -46,6 +46,19 @@ func genC19(seed uint64, tier string) *plan.Plan {
 	pl.Cfg["successes"] = int64(r.IntN(2))
 	pl.Cfg["lazy"] = int64(r.IntN(3))
 	n := 2 + r.IntN(10)
+	if r.IntN(6) == 0 {
+		// two collecting processes feed one producer: a PublishIPFIXMessages loop per message channel
+		pl.Cfg["pubs"] = 2
+		pl.Cfg["successes"] = int64(min(1, r.IntN(4)))
+		for i := 0; i < n+2; i++ {
+			pl.Ops = append(pl.Ops, plan.Op{K: "msg", A: 1, B: int64(1 + r.IntN(4)), C: int64(r.Uint64() >> 1), D: int64(r.IntN(2)), T: r.IntN(2) * 100})
+			if r.IntN(4) == 0 {
+				pl.Ops = append(pl.Ops, plan.Op{K: "stall", A: int64(r.IntN(8)), B: int64(1 + r.IntN(50))})
+			}
+		}
+		genSchedule(r, pl, 5, 3000)
+		return pl
+	}
 	for i := 0; i < n; i++ {
 		if r.IntN(5) == 0 {
 			pl.Ops = append(pl.Ops, plan.Op{K: "msg", A: 0, C: int64(r.Uint64() >> 1)})
@@ -260,6 +273,10 @@ func runC19(pl *plan.Plan, out *plan.Outcome) {
 		case "stall":
 			stalls[int(op.A)] = time.Duration(op.B) * time.Millisecond
 		}
+	}
+	if cfgOr(pl, "pubs", 1) == 2 {
+		runC19Two(env, pl, out, kp, br, msgs, stalls, schema, successes)
+		return
 	}
 	var expected []c19Rec
 	msgCh := make(chan *entities.Message)
@@ -502,4 +519,124 @@ func countEncodable(all []c19Rec, e c19Rec) int {
 		}
 	}
 	return n
+}
+
+// runC19Two: two message channels, a PublishIPFIXMessages loop on each, one producer. Every record of
+// either stream is published exactly once, and the records of one stream appear in their order.
+func runC19Two(env *Env, pl *plan.Plan, out *plan.Outcome, kp *producer.KafkaProducer, br *simBroker, msgs []plan.Op, stalls map[int]time.Duration, schema int, successes bool) {
+	keyOf := func(e c19Rec) string {
+		return fmt.Sprintf("%d/%d/%s/%s/%d/%d/%d/%d/%d/%d", e.dom, e.seq, e.srcIP, e.dstIP, e.srcPort, e.dstPort, e.start, e.end, e.pktTot, e.octTot)
+	}
+	var expected [2][]string
+	var chs [2]chan *entities.Message
+	done := make(chan struct{}, 2)
+	for p := 0; p < 2; p++ {
+		p := p
+		chs[p] = make(chan *entities.Message)
+		env.Go(fmt.Sprintf("publisher%d", p), func() {
+			kp.PublishIPFIXMessages(chs[p])
+			done <- struct{}{}
+		})
+		env.Go(fmt.Sprintf("feeder%d", p), func() {
+			for _, op := range msgs {
+				if op.T/100 != p {
+					continue
+				}
+				m, recs := c19Data(op.C, int(op.B), op.D == 1, -1, false)
+				for _, e := range recs {
+					expected[p] = append(expected[p], keyOf(e))
+				}
+				Block("feed", func() { chs[p] <- m })
+			}
+			close(chs[p])
+		})
+	}
+	allDone := make(chan struct{})
+	env.Go("join", func() {
+		Block("join", func() { <-done })
+		Block("join", func() { <-done })
+		close(allDone)
+	})
+	var got []string
+	env.Go("broker", func() {
+		n := 0
+		for {
+			var pm *sarama.ProducerMessage
+			stop := false
+			Block("broker-recv", func() {
+				select {
+				case pm = <-br.input:
+				case <-allDone:
+					stop = true
+				}
+			})
+			if stop {
+				return
+			}
+			if d, ok := stalls[n]; ok {
+				env.Count("fault.broker_stall", 1)
+				env.Sleep(d)
+			}
+			n++
+			b, err := pm.Value.Encode()
+			key := "undecodable"
+			if err == nil && len(b) >= 4 {
+				var m proto.Message = &pb.FlowType1{}
+				if schema == 2 {
+					m = &pb.FlowType2{}
+				}
+				if proto.Unmarshal(b[4:], m) == nil {
+					f := m.(interface {
+						GetSequenceNumber() uint32
+						GetObsDomainID() uint32
+						GetSrcIP() string
+						GetDstIP() string
+						GetSrcPort() uint32
+						GetDstPort() uint32
+						GetTimeFlowStartInSecs() uint32
+						GetTimeFlowEndInSecs() uint32
+						GetPacketsTotal() uint64
+						GetBytesTotal() uint64
+					})
+					key = fmt.Sprintf("%d/%d/%s/%s/%d/%d/%d/%d/%d/%d", f.GetObsDomainID(), f.GetSequenceNumber(), f.GetSrcIP(), f.GetDstIP(), f.GetSrcPort(), f.GetDstPort(), f.GetTimeFlowStartInSecs(), f.GetTimeFlowEndInSecs(), f.GetPacketsTotal(), f.GetBytesTotal())
+				}
+			}
+			got = append(got, key)
+			if successes {
+				Block("ack", func() {
+					select {
+					case br.successes <- pm:
+					case <-allDone:
+					}
+				})
+			}
+		}
+	})
+	res := env.Run()
+	total := len(expected[0]) + len(expected[1])
+	if res == "stuck" {
+		env.Violate("publish-never-returns", "two-publishers", "two PublishIPFIXMessages loops on one producer (acknowledgements %v): %d records handed over, %d published, and the run cannot go on: a publisher waits for ever", successes, total, len(got))
+		out.Hash = fmt.Sprintf("%s-stuck", out.Hash)
+	} else if res != "done" && out.Trouble == "" {
+		out.Trouble = "run ended: " + res
+		return
+	}
+	if res == "done" && len(got) != total {
+		env.Violate("count", "two-publishers", "%d data records were handed to the producer by two publishers, %d Kafka messages were published", total, len(got))
+	}
+	for p := 0; p < 2; p++ {
+		// the stream's records, in order, among what was published
+		j := 0
+		for _, k := range got {
+			if j < len(expected[p]) && k == expected[p][j] {
+				j++
+			}
+		}
+		if res == "done" && j != len(expected[p]) {
+			env.Violate("order", "two-publishers", "publisher %d: record %d of its stream is not published after the %d before it (published %d messages in all)", p, j, j, len(got))
+		}
+	}
+	out.Add("c19.two_publishers", 1)
+	out.Nontrivial = len(expected[0]) > 0 && len(expected[1]) > 0
+	out.Sample = map[string]any{"member": "two publishers", "records": total, "acks": successes}
 }
